@@ -7,25 +7,51 @@ Property theorems only.  Errors are trees mirroring the values the Go network st
 (`CJ.Model.LogTaint.Err`); their text is a list of tokens in which every address is a token of its own
 that remembers whose address it is.  `generalize app` is the model of the two `generalizeErr` functions
 (`app = true`: cmd/application/conns.go, `app = false`: pkg/station/lib/proxies.go).
-`CJ.Gen.logSites` is regenerated from the Go sources on every run: every logger call of `conns.go`,
-`main.go`, `proxies.go`, `registration.go`, `registration_ingest.go` with a classification of each argument.
+`CJ.Gen.logSites` is regenerated from the Go sources on every run: every logger call and logger prefix
+of every non-test file under cmd/application, pkg/station, pkg/transports, pkg/dtls with a classification
+of each printed value; with it the log-level table (observed at run time), the assignments to
+`logClientIP` and the fields of the JSON summaries.
 -/
 namespace CJ.Props.C17
 open CJ.LogTaint
 
-/-- **The sanitiser removes every address**, for *every* error: each anticipated errno, unanticipated
-errnos, timeouts, operation errors whose text embeds both endpoints, wrapped any number of times, in
-either variant of the function. -/
-theorem generalize_no_addr (app : Bool) (e : Err) : noAddr (generalizedText app e) = true :=
-  generalizedText_noAddr app e
+/-- **The sanitiser removes every address** of *every* error that names endpoints only through operation
+errors (`opaqueClean`: what package net, os, syscall and the wrapping transports return from Read, Write,
+Close, SetDeadline, File, Dial): each anticipated errno, unanticipated errnos, timeouts, operation errors
+whose text embeds both endpoints, wrapped any number of times, in either variant of the function. -/
+theorem generalize_no_addr (app : Bool) (e : Err) (hc : e.opaqueClean = true) :
+    noAddr (generalizedText app e) = true :=
+  generalizedText_noAddr app e hc
 
 /-- the same for the error value itself -/
-theorem generalize_result_no_addr (app : Bool) (e r : Err) (h : generalize app e = some r) :
-    noAddr r.text = true :=
-  generalize_noAddr app e r h
+theorem generalize_result_no_addr (app : Bool) (e r : Err) (hc : e.opaqueClean = true)
+    (h : generalize app e = some r) : noAddr r.text = true :=
+  generalize_noAddr app e r hc h
+
+/-- without the hypothesis, for *every* error: the sanitiser never adds an address — an address in its
+result was in the text it was given -/
+theorem generalize_adds_no_addr (app : Bool) (e : Err) :
+    ∀ t ∈ generalizedText app e, t.isStr = false → t ∈ e.text :=
+  generalizedText_sub app e
+
+/-- **The hypothesis is needed.**  An operation error flattened into text (`fmt.Errorf("…: %v", opErr)`,
+as pkg/dtls does for its deadline errors) and a `*net.AddrError` carry an address in an opaque part; both
+variants of the function return them as they are, address included.  (No such error reaches a logged
+`generalizeErr` today — the harness feeds both shapes to the real functions to confirm that model and
+code agree on this.) -/
+def flattened : Err :=
+  .other [.str "error setting deadline: set udp ", .addr ⟨.client, "203.0.113.77:5555"⟩, .str ": invalid argument"]
+def addrError : Err :=
+  .netErr [.str "address ", .addr ⟨.client, "203.0.113.77"⟩, .str ": missing port in address"] false
+
+theorem opaque_address_passes_through (app : Bool) :
+    noClient (generalizedText app flattened) = false ∧ noClient (generalizedText app addrError) = false ∧
+    flattened.opaqueClean = false ∧ addrError.opaqueClean = false := by
+  cases app <;> decide
 
 /-- what the tunnel statistics store (`e.Error()` of the generalised error, or nothing) is address-free -/
-theorem stat_text_no_addr (e : Option Err) : noAddr (statText e) = true := statText_noAddr e
+theorem stat_text_no_addr (e : Option Err) (hc : ∀ x, e = some x → x.opaqueClean = true) :
+    noAddr (statText e) = true := statText_noAddr e hc
 
 /-- the reduction does not touch errors that carry no operation error: the sentinels the callers compare
 with `errors.Is` after `generalizeErr` (`transports.ErrTryAgain`, `ErrNotTransport`) keep their identity -/
@@ -51,20 +77,38 @@ client address**: literals, numbers, type names, errors that went through `gener
 from a reviewed origin, reviewed expressions that are not client addresses.  (Checked by evaluation over
 the regenerated table: a new call site that prints a raw error from an unreviewed call, a client address
 or an unreviewed expression makes this theorem fail.) -/
-theorem sites_all_ok : CJ.Gen.logSites.all Site.ok = true := by
+theorem sites_all_ok : CJ.Gen.logSites.all (Site.ok CJ.Gen.levelEmitted) = true := by
   set_option maxRecDepth 200000 in decide
 
-theorem sites_no_addr : ∀ s ∈ CJ.Gen.logSites, s.ok = true :=
+theorem sites_no_addr : ∀ s ∈ CJ.Gen.logSites, s.ok CJ.Gen.levelEmitted = true :=
   List.all_eq_true.mp sites_all_ok
+
+/-- the level table observed on the code lists every level (none is emitted merely because it is missing) -/
+theorem level_table_complete (l : Level) : (CJ.Gen.levelEmitted.lookup l).isSome = true := by
+  cases l <;> decide
+
+/-- **Client-address logging is off unless asked for**: `logClientIP` is declared once, with `false` (or
+no) initialiser, and the only values ever assigned to it are the constant `false` and the parsed
+environment variable `LOG_CLIENT_IP`; its address is never taken.  The assignments the call-site table
+leaves out because they stand under `if logClientIP` are the reviewed ones. -/
+theorem log_client_ip_off_by_default :
+    CJ.Gen.logClientIPInit.length = 1 ∧ CJ.Gen.logClientIPInit.all (fun a => a == "false" || a == "<zero>") = true ∧
+    CJ.Gen.logClientIPAssigns.all (fun a => reviewedLogClientIPAssigns.contains a) = true ∧
+    CJ.Gen.guardedByLogClientIP.all (fun a => reviewedGuarded.contains a) = true := by decide
+
+/-- **The JSON summaries have no field that could hold a client address**: every field of `tunnelStats`
+and `regExpireLogMsg` (reflect) and every key of `DecoyRegistration.String()` (its output) is of a type
+that cannot hold an address, or a string field whose content was reviewed -/
+theorem summary_fields_reviewed : CJ.Gen.summaryFields.all fieldOk = true := by decide
 
 /-- **Semantic reading of the table**: in every environment that respects the reviewed tables (listed
 origins return errors without client addresses, listed non-client expressions render no client address)
 and for every error value handed to `generalizeErr`, what an emitted, non-exempt call site prints
 contains no client address. -/
 theorem site_render_no_client (s : Site) (hs : s ∈ CJ.Gen.logSites)
-    (hem : s.level.emittedAtDefault = true) (hex : exemptFormats.contains s.format = false)
+    (hem : emittedBy CJ.Gen.levelEmitted s.level = true) (hex : exemptFormats.contains s.format = false)
     (env : Env) (hok : env.Ok) : noClient (renderSite env s) = true :=
-  site_ok_noClient s (sites_no_addr s hs) hem hex env hok
+  site_ok_noClient CJ.Gen.levelEmitted s (sites_no_addr s hs) hem hex env hok
 
 /-- a `SetDeadline` failure as package net builds it (`OpError{Op: "set", Source: nil, Addr: laddr}`)
 names the local address only: logging it unchanged shows no client address -/
@@ -87,9 +131,9 @@ theorem flow_description_with_logging (client phantom : Addr) (hc : client.role 
 
 /-- **The tunnel summary** (`proxy closed {…}`) holds no client address, whatever errors were recorded
 for the dial, the covert side and the client side -/
-theorem tunnel_summary_no_client (t : Tunnel) (hp : t.phantom.role ≠ .client) :
+theorem tunnel_summary_no_client (t : Tunnel) (hp : t.phantom.role ≠ .client) (hc : t.clean) :
     noClient (tunnelSummary t) = true :=
-  tunnelSummary_noClient t hp
+  tunnelSummary_noClient t hp hc
 
 /-- **Registration digest, expiry record and the line that drops a registration omit the registrant** -/
 theorem digest_omits_registrant (r : RegInfo) (hp : r.phantom.role ≠ .client) (hc : r.covert.role ≠ .client) :
@@ -100,14 +144,16 @@ theorem digest_omits_registrant (r : RegInfo) (hp : r.phantom.role ≠ .client) 
 
 /-- an environment that respects the reviewed tables exists (everything renders as plain text) -/
 example : Env.Ok { app := true, err := probe, raw := fun _ => .eof, exprToks := fun _ => [.str "x"] } :=
-  ⟨fun _ _ => rfl, fun _ _ _ _ => rfl⟩
+  ⟨by decide, fun _ _ => rfl, fun _ _ _ _ => rfl⟩
+
+example : probe.opaqueClean = true := by decide
 
 /-- the table is not empty and contains emitted sites that print a generalised error -/
-example : (CJ.Gen.logSites.any fun s => s.level.emittedAtDefault && s.args.contains Arg.genErr) = true := by
+example : (CJ.Gen.logSites.any fun s => emittedBy CJ.Gen.levelEmitted s.level && s.args.contains Arg.genErr) = true := by
   set_option maxRecDepth 200000 in decide
 
 /-- a wrapped operation error two levels deep, timeouts, anticipated errnos -/
-example : render (generalizedText false (.wrapped "obfs4 handshake" probe)) = "read tcp: network is down" := by decide
+example : render (generalizedText false (.wrapped [.str "obfs4 handshake: "] probe)) = "read tcp: network is down" := by decide
 example : generalize true (.opError "read" "tcp" none (some ⟨.client, "[2001:db8::77]:5555"⟩)
     (.syscallErr "read" (.errno ECONNRESET "connection reset by peer"))) = some errConnReset := by decide
 example : generalize false (.opError "read" "tcp" none none .deadline) = some errConnTimeout := by decide
